@@ -49,7 +49,9 @@ func isUnauthorized(tx *TxResult) bool {
 	}
 	switch tx.Op.K {
 	case "dep", "wd", "del", "und", "assoc", "dissoc", "regchain", "regtoken", "updtoken":
-		return tx.Op.M == 1
+		// a direct call by a non-gateway account, or the gateway contract reaching the precompile in a
+		// read-only frame / by DELEGATECALL (the caller the precompile sees is then the ordinary account)
+		return tx.Op.M == 1 || tx.CallMode == "static" || tx.CallMode == "delegate"
 	case "price":
 		return tx.Oracle != nil && (tx.Oracle.SigMode != SigValid || !tx.Oracle.IsValidator)
 	case "price2":
@@ -64,6 +66,10 @@ func isUnauthorized(tx *TxResult) bool {
 		return tx.Op.M == 3 || tx.Op.M == 4
 	case "avsres":
 		return tx.Op.E == 5 // signed by another account than the operator it is attributed to
+	case "avsopt", "blsreg":
+		// operator opt-in/out and key registration through the AVS precompile name the operator in an
+		// argument: they may take effect only for the signer of the transaction
+		return tx.Operator != nil && !tx.Sender.Equals(tx.Operator)
 	}
 	return false
 }
@@ -77,7 +83,13 @@ func (m *c09Monitor) AfterTx(r *Run, ctx sdk.Context, tx *TxResult) {
 	if unauth {
 		m.Unauth[ep]++
 		if tx.OK {
-			r.Violate(m.Name(), "unauthorized-caller-is-rejected", ep, fmt.Sprintf("%s by an unauthorised caller succeeded: %s", ep, tx.Op))
+			report := r.Violate
+			if tx.Op.K == "avsopt" || tx.Op.K == "blsreg" {
+				report = r.violateKeepGoing // a per-call judgement; a listed finding must not mask the rest of the run
+			}
+			if report(m.Name(), "unauthorized-caller-is-rejected", ep, fmt.Sprintf("%s by an unauthorised caller succeeded: %s", ep, tx.Op)) {
+				return
+			}
 			return
 		}
 	} else if m.onlyUnauthorized {
@@ -98,8 +110,16 @@ func (m *c09Monitor) AfterTx(r *Run, ctx sdk.Context, tx *TxResult) {
 		inv = "unauthorized-call-changes-nothing"
 		disc = ep + "|" + PrefixClass(diff)
 	}
+	if tx.CallMode == "nested-revert" {
+		// one class whatever the entry point: the defect is in how precompiles reach the stores
+		inv, disc = "effects-of-a-reverted-inner-frame-are-rolled-back", "stores"
+	}
+	report := r.Violate
+	if tx.CallMode == "nested-revert" {
+		report = r.violateKeepGoing // per-transaction comparison: a listed finding does not mask later ones
+	}
 	if len(diff) > 0 {
-		r.Violate(m.Name(), inv, disc, fmt.Sprintf("%s reported failure (code %d flag %v: %s) but changed the module stores:\n%s", tx.Op, tx.Resp.Code, flagStr(tx.Flag), firstN(errClass(tx), 100), fmtDiff(diff, 8)))
+		report(m.Name(), inv, disc, fmt.Sprintf("%s reported failure (code %d flag %v: %s) but changed the module stores:\n%s", tx.Op, tx.Resp.Code, flagStr(tx.Flag), firstN(errClass(tx), 100), fmtDiff(diff, 8)))
 		return
 	}
 	ignore := "  filter nonces"
@@ -107,7 +127,11 @@ func (m *c09Monitor) AfterTx(r *Run, ctx sdk.Context, tx *TxResult) {
 		ignore = ""
 	}
 	if d := lineDiff(m.preMem, oraclekeeper.VerifDumpDeliver(), ignore); d != "" {
-		r.Violate(m.Name(), strings.Replace(inv, "module-stores", "in-memory-oracle-state", 1), ep+"|"+errClass(tx)+"|memory", fmt.Sprintf("%s reported failure (code %d: %s) but changed the oracle's in-memory state:\n%s", tx.Op, tx.Resp.Code, firstN(errClass(tx), 100), firstN(d, 1200)))
+		memDisc := ep + "|" + errClass(tx) + "|memory"
+		if tx.CallMode == "nested-revert" {
+			memDisc = "oracle-memory"
+		}
+		report(m.Name(), strings.Replace(inv, "module-stores", "in-memory-oracle-state", 1), memDisc, fmt.Sprintf("%s reported failure (code %d: %s) but changed the oracle's in-memory state:\n%s", tx.Op, tx.Resp.Code, firstN(errClass(tx), 100), firstN(d, 1200)))
 	}
 }
 
@@ -161,11 +185,13 @@ func c09Plan(unauthorizedBias bool) func(p *PRNG, cfg Config, tier string) Plan 
 					case "dep", "wd", "del", "und", "assoc", "dissoc", "regchain", "regtoken", "updtoken":
 						if o.M == 0 && p.Chance(1, 5) {
 							o.M = 2
+						} else if o.M == 0 && p.Chance(1, 8) {
+							o.M = 3 + p.Intn(3) // STATICCALL / DELEGATECALL frame / nested reverting frame
 						}
 					}
 				}
 			}
-			plan.Blocks[0].Ops = append([]Op{{K: "etx", A: 2, E: 4, N: 400000}}, plan.Blocks[0].Ops...)
+			plan.Blocks[0].Ops = append([]Op{{K: "etx", A: 2, E: 4, N: 400000}, {K: "etx", A: 1, E: 4, N: 400000}}, plan.Blocks[0].Ops...)
 		}
 		return plan
 	}
